@@ -18,7 +18,7 @@ def specs(tier):
         exact = fb < 1.0
         js += [
             J('steady2-%s:F1H2X2S1' % tag, 'steady', dict(n=2, fallback=fb, exact_time=exact), dict(F=1, H=2, X=2, S=1), dict(k=0)),
-            J('steady3-%s:F1H1X2S1' % tag, 'steady', dict(n=3, fallback=fb, exact_time=exact), dict(F=1, H=1, X=2, S=1), dict(k=0)),
+            J('steady3-%s:F1H1X2' % tag, 'steady', dict(n=3, fallback=fb, exact_time=exact), dict(F=1, H=(1 if fb < 1 else 0), X=2), dict(k=0)),
         ]
         if not q:
             js += [
